@@ -10,7 +10,7 @@ REQUIRED_THEOREMS = ['Props.C09.softmax_shift_range', 'Props.C09.sigmoid_range',
                      'Props.C09.log_softmax_exact', 'Props.C09.bce_logits_shift_nonpos']
 RULE = ('sigmoid, tanh, selu, softmax, log_softmax, cross-entropy, BCE-with-logits, forward and backward, at float32 and float64, on '
         'the magnitude table {0, +-1, +-20, +-88, +-89, +-100, +-1e3, +-1e4} (single values and rows mixing them, i.e. spreads up to '
-        '2e4, any label / target) plus random rows; the model kernels are executed at Float32 and Float and compared with the '
+        '2e4, any label / target) plus random rows, plus batches of more than 1 MiB whose rows sit at levels spread over the table (the row-wise ops are run on the repeated rows, the model on one copy); the model kernels are executed at Float32 and Float and compared with the '
         'implementation at the same dtype (so an overflow is a fact of the model run too); the failing-input search compares with '
         '50-digit mpmath: outputs and gradients must be finite and within 16 ulp(float32) x max(1, |x|max) of the exact value. '
         'Non-trivial: a case with |x| >= 88 or a row spread >= 100.')
@@ -58,17 +58,62 @@ def cases(rng, tier):
                 out.append(mk(rng, op, dt, row=[m, 0.0, -m, m / 2]))
             for _ in range(6 if tier == 'quick' else 400):
                 out.append(mk(rng, op, dt))
+    for dt in ('f32', 'f64'):
+        for op in ('softmax', 'log_softmax', 'cross_entropy', 'sigmoid', 'binary_cross_entropy_with_logits'):
+            for _ in range(1 if tier == 'quick' else 6):
+                out.append(big(rng, op, dt))
     for c in out:
         c['lines'] = [line(c)]
         c['desc'] = {k: c[k] for k in ('op', 'dt', 'shape', 'x', 'labels', 'dim')}
     return out
 
 
+def big(rng, op, dt):
+    """a batch of more than 1 MiB: the rows of a small case (levels spread over the magnitude table) repeated along the batch axis.
+    The ops are row-wise, so the first block of the big result is the result of the small case, which is what the model computes."""
+    k, C = 8, 64
+    x = []
+    for _ in range(k):
+        lvl = rng.pick(MAGS)
+        x += [lvl + rng.dyadic(-4, 4) for _ in range(C)]
+    sh = (k, C)
+    reps = (2 ** 20 // (k * C * (4 if dt == 'f32' else 8))) + 2
+    if op == 'cross_entropy':
+        c = {'op': op, 'dt': dt, 'shape': sh, 'x': x, 'g': [rng.dyadic(-2, 2) or 1.0 for _ in range(k)], 'gshape': (k,), 'dim': 1,
+             'labels': [rng.randrange(C) for _ in range(k)], 'aux': [0.0], 'ashape': (1,)}
+    elif op == 'binary_cross_entropy_with_logits':
+        c = {'op': op, 'dt': dt, 'shape': sh, 'x': x, 'g': [rng.dyadic(-2, 2) or 1.0 for _ in x], 'gshape': sh, 'dim': 1, 'labels': [],
+             'aux': [float(rng.randint(0, 1)) for _ in x], 'ashape': sh}
+    else:
+        c = {'op': op, 'dt': dt, 'shape': sh, 'x': x, 'g': [rng.dyadic(-2, 2) or 1.0 for _ in x], 'gshape': sh, 'dim': rng.pick([1, -1]), 'labels': [], 'aux': [0.0], 'ashape': (1,)}
+    c['big'] = reps
+    return c
+
+
 def _run(c):
     sg = common.impl()
     dt = tprog.DT[c['dt']]
+    reps = c.get('big')
+    if reps:
+        til = lambda a, shape: np.tile(np.array(a, dtype=np.float64).astype(dt).reshape(shape), (reps,) + (1,) * (len(shape) - 1))
+        x = sg.Tensor(til(c['x'], c['shape']), requires_grad=True)
+        g = sg.Tensor(til(c['g'], c['gshape']))
+        k = c['shape'][0]
+        c = dict(c, labels=list(c['labels']) * reps, aux=(til(c['aux'], c['ashape']).ravel().tolist() if tuple(c['ashape']) == tuple(c['shape']) else c['aux']),
+                 ashape=((k * reps,) + tuple(c['shape'][1:]) if tuple(c['ashape']) == tuple(c['shape']) else c['ashape']))
+        y, gx = _run_on(sg, dt, c, x, g)
+        blocks_y, blocks_g = y.reshape((reps, -1)), gx.reshape((reps, -1))
+        # every block must repeat the first one (same rows); report the block that deviates most
+        dev = np.nanmax(np.abs(blocks_g - blocks_g[0]), axis=1) + np.nanmax(np.abs(blocks_y - blocks_y[0]), axis=1)
+        dev = np.where(np.isfinite(dev), dev, 0) + (~np.isfinite(blocks_g)).any(axis=1) + (~np.isfinite(blocks_y)).any(axis=1)
+        b = int(np.argmax(dev))
+        return y[b * (len(y) // reps):(b + 1) * (len(y) // reps)], gx[b * k:(b + 1) * k]
     x = sg.Tensor(np.array(c['x'], dtype=np.float64).astype(dt).reshape(c['shape']), requires_grad=True)
     g = sg.Tensor(np.array(c['g'], dtype=np.float64).astype(dt).reshape(c['gshape']))
+    return _run_on(sg, dt, c, x, g)
+
+
+def _run_on(sg, dt, c, x, g):
     op = c['op']
     from synapgrad import nn
     layer = (len(c['x']) + int(abs(c['x'][0]) * 8)) % 2 == 1          # the nn layer / loss class instead of the function
@@ -127,6 +172,7 @@ def distribution(cases):
     for c in cases:
         k = f"{c['op']}/{c['dt']}"
         d[k] = d.get(k, 0) + 1
+        if c.get('big'): d['batch over 1 MiB'] = d.get('batch over 1 MiB', 0) + 1
     d['large'] = sum(1 for c in cases if nontrivial(c))
     return d
 
@@ -178,7 +224,7 @@ def _exact(c):
 
 def oracle(c):
     r = outcome(lambda: _run(c))
-    cc = {k: c[k] for k in ('op', 'dt', 'shape', 'x', 'g', 'gshape', 'dim', 'labels', 'aux', 'ashape')}
+    cc = {k: c[k] for k in ('op', 'dt', 'shape', 'x', 'g', 'gshape', 'dim', 'labels', 'aux', 'ashape', 'big') if k in c}
     key = {'op': c['op'], 'dt': c['dt']}
     if isinstance(r, str):
         return {'key': dict(key, cls='raises'), 'case': cc, 'what': f"{c['op']} raised on finite inputs"}
